@@ -5,7 +5,7 @@
    model's observation satisfies the monitor: Ok iff every leaf is free (try_lock) / not write-held
    (try_read) — independently of kind, arrangement and nesting —, a refusal leaves the hold table as it
    was, success holds every leaf and dropping the guard restores the table. *)
-From HL Require Import Base Model Shape Algo Api Lemmas ShapeLemmas Check Monitors Pf_C13.
+From HL Require Import Base Model Shape Algo Api Lemmas ShapeLemmas Check Monitors Pf_C13 Pf_Hist Pf_Hist4.
 
 Theorem C13_try_exact :
   forall sc c m s t, wf_C13 sc c m s t -> mon_C13 sc (model_obs sc) = true.
@@ -32,4 +32,28 @@ Qed.
 Example C13_example_runs : mon_C13 ex13 (model_obs ex13) = true.
 Proof. vm_compute. reflexivity. Qed.
 
+(* the scoped variants scoped_try_lock / scoped_try_read (key lent or moved in, any closure, panicking or not): the
+   closure runs — the call returns Ok, or unwinds if the closure panics — exactly when every leaf is available, and the
+   hold table is afterwards as it was *)
+Theorem C13_scoped_try_exact :
+  forall sc t c m lent body, wf_histb sc && wf4b sc = true ->
+  sc_hist sc = [(t, AKeyGet); (t, AAcquire c m (FScopedTry lent body))] ->
+  mon_C13 sc (model_obs sc) = true.
+Proof.
+  intros sc t c m lent body H. apply andb_true_iff in H. destruct H as [A B].
+  apply Pf_Hist4.C13_scoped_try_exact; [now apply wf_histb_ok|now apply wf4b_ok].
+Qed.
+
+Definition ex13s : scen :=
+  mks 3 1 [2; 0; 1] [] [ex13_shape] [(1, mkraw None [100; 101])] [] [] 4
+      [(0, AKeyGet); (0, AAcquire 0 Sh (FScopedTry true [CRead 1; CPanic]))].
+Definition ex13s' : scen :=
+  mks 3 1 [2; 0; 1] [] [ex13_shape] [(1, mkraw None [100; 101])] [] [] 4
+      [(0, AKeyGet); (0, AAcquire 0 Ex (FScopedTry false [CWrite 1]))].
+Example C13_scoped_nonvacuous :
+  wf_histb ex13s && wf4b ex13s = true /\ map co_ret (model_obs ex13s) = [RB true; RPanicked] /\
+  wf_histb ex13s' && wf4b ex13s' = true /\ map co_ret (model_obs ex13s') = [RB true; RWouldBlock].
+Proof. vm_compute. repeat split. Qed.
+
 Print Assumptions C13_try_exact.
+Print Assumptions C13_scoped_try_exact.
